@@ -643,6 +643,10 @@ func (g *G) template(d int, tag string) string {
 }
 
 func (g *G) iife(d int) string {
+	if g.chance(12, "strictprobe") {
+		// a function-level directive must stay a directive (no escapes or line continuations inside it)
+		return "(function () { \"use strict\"; return this === void 0; })()"
+	}
 	saved := g.saveCtx()
 	defer g.restoreCtx(saved)
 	g.push(true)
